@@ -102,11 +102,15 @@ theorem tb_mem_toTable_columns (cfg : Cfg) (o : TableOpts) (cols : List ColS) (c
   have := List.of_mem_zip hcp
   exact ⟨cp.1, this.1, cp.2, this.2, rfl⟩
 
-theorem tb_paddingWidth_nonneg (cfg : Cfg) (o : TableOpts) (cols : List ColS) (idx : Nat) :
-    0 ≤ (toTable cfg o cols).paddingWidth idx := by
+theorem tb_paddingWidth_nonneg' (t : Table) (idx : Nat) (h1 : 0 ≤ t.padding.2.1) (h2 : 0 ≤ t.padding.2.2.2) :
+    0 ≤ t.paddingWidth idx := by
   unfold Table.paddingWidth
-  simp only [toTable, TableOpts.skel]
+  simp only
   split <;> omega
+
+theorem tb_paddingWidth_nonneg (cfg : Cfg) (o : TableOpts) (cols : List ColS) (idx : Nat) :
+    0 ≤ (toTable cfg o cols).paddingWidth idx :=
+  tb_paddingWidth_nonneg' _ idx (Int.natCast_nonneg o.padding.right) (Int.natCast_nonneg o.padding.left)
 
 theorem tb_toTable_allFree (cfg : Cfg) (o : TableOpts) (cols : List ColS)
     (hfree : ∀ c ∈ cols, c.o.width = none ∧ c.o.minWidth = none)
@@ -169,16 +173,21 @@ theorem tb_toTable_noWrap (cfg : Cfg) (o : TableOpts) (cols : List ColS)
   obtain ⟨cs, hcs, pc, _, rfl⟩ := tb_mem_toTable_columns cfg o cols c hc
   exact hfree cs hcs
 
+theorem tb_extraWidth_le' (t : Table) (n : Nat) (hn : t.columns.length = n) (h1 : 1 ≤ n) (q : Bool)
+    (hq : t.box.isSome = true → q = true) :
+    0 ≤ t.extraWidth ∧ t.extraWidth ≤ (((if q && t.showEdge then 2 else 0) + (if q then n - 1 else 0) : Nat) : Int) := by
+  unfold Table.extraWidth
+  rw [hn]
+  generalize t.box.isSome = p at hq ⊢
+  cases p <;> cases q <;> cases t.showEdge <;> simp at hq ⊢ <;> omega
+
 /-- `_extra_width` of any table with these options and `n ≥ 1` columns: at most the edges and dividers -/
 theorem tb_extraWidth_skel (o : TableOpts) (columns : List Column) (n : Nat) (hn : columns.length = n) (h1 : 1 ≤ n) :
     0 ≤ ({ o.skel with columns := columns } : Table).extraWidth ∧
     ({ o.skel with columns := columns } : Table).extraWidth ≤ (tableExtra o n : Int) := by
-  unfold Table.extraWidth tableExtra
-  simp only [TableOpts.skel, hn]
-  cases hb : o.box with
-  | none => simp
-  | some i =>
-    cases boxOf i <;> cases o.showEdge <;> simp <;> omega
+  have hq : (o.box.bind boxOf).isSome = true → o.box.isSome = true := by
+    cases o.box <;> simp
+  exact tb_extraWidth_le' ({ o.skel with columns := columns } : Table) n hn h1 o.box.isSome hq
 
 theorem tb_width_skel (o : TableOpts) (columns : List Column) :
     ({ o.skel with columns := columns } : Table).width = o.width.map Int.ofNat := rfl
